@@ -496,6 +496,9 @@ def derive_gm(case):
     rng = np.random.default_rng([case['seed'], 3])
     d, k = case['d'], case['k']
     scale = 10.0 ** rng.uniform(-1, 1)
+    if rng.random() < 0.3:
+        # parameters in very small or very large units (rates per microsecond, populations in millions): same mixture, other scale
+        scale = 10.0 ** (rng.uniform(-6, -3) if rng.random() < 0.6 else rng.uniform(2, 4))
     M = (rng.normal(size=(k, d)) * 3 + rng.uniform(-5, 5)) * scale
     if case['ws'] == 'none':
         w = None
